@@ -400,8 +400,8 @@ def _g3(ctx: Context) -> None:
     for c in closes:
         gate += ctx.normal_out(cfg, c)
     for n in cfg.nodes:
-        if n.kind == "test" and dotted(n.exprs[0]) == "self.transport":
-            gate += ctx.edges(cfg, n, "F")
+        if n.kind == "test" and (dotted(n.exprs[0]) == "self.transport" or ctx.expr_path(cfg, n, n.exprs[0]) == "self.transport"):
+            gate += ctx.edges(cfg, n, "F")  # (also through a local alias: `t = self.transport; if t: t.close()`)
         if n.kind == "test":
             t = ctx.terms.of(cfg, n, n.exprs[0])
             if t[0] == "cmp" and t[1] in (("Is",), ("IsNot",)) and t[2][0] == ("attr", ("param", "self"), "transport") and t[2][1] == ("const", None):
